@@ -429,7 +429,7 @@ impl Scenario for C09 {
         }
     }
     fn rule(&self) -> String {
-        "Each run: one of the 19 seedable types and one sampled source stream (explicit sparse/dense prefix incl. leading all-zero blocks, hash-derived continuation). Per stream: (1) no fault: from_rng, try_from_rng and from_seed(bytes delivered) agree by == and by more than one block of outputs; the source is left advanced by exactly one seed's worth (1024/2048 bytes for ISAAC, 16*(k+1) for XorShiftRng after k zero blocks) through fill_bytes only; for ISAAC the two custom constructors are compared core to core and the state image against a harness randinit model (LE words, two passes). (2) EVERY fault position is enumerated: a clean error at call c for c = 1..=calls_needed+1 and a torn fill (j bytes written, then the error) for every j in 0..len of every needed call (8..64 positions for the small generators, 1024/2048 for ISAAC): the result must be Err carrying the injected token for every position up to the last needed byte, and Ok == from_rng for positions after it. (3) seed_from_u64(x) for one edge/random x: xoshiro family == from_seed(first bytes of the repository's SplitMix64 stream started at x), XorShiftRng/Hc128Rng == from_seed(rand_core's PCG32 expansion written out in the harness), ISAAC state image == randinit(x in the first key word(s), zeros, ONE pass). evaluations counts every constructed case; distinct_nontrivial = distinct (type, route, fault kind, fault call index, torn length bucket) signatures.".into()
+        "Each run: one of the 19 seedable types and one sampled source stream (explicit sparse/dense prefix incl. leading all-zero blocks, hash-derived continuation). Per stream: (1) no fault: from_rng, try_from_rng and from_seed(bytes delivered) agree by == and by more than one block of outputs; the source is left advanced by exactly one seed's worth (1024/2048 bytes for ISAAC, 16*(k+1) for XorShiftRng after k zero blocks) through fill_bytes only; for ISAAC the two custom constructors are compared core to core and the state image against a harness randinit model (LE words, two passes). (2) EVERY fault position is enumerated: a clean error at call c for c = 1..=calls_needed+1 and a torn fill (j bytes written, then the error) for every j in 0..len of every needed call (8..64 positions for the small generators, 1024/2048 for ISAAC): the result must be Err carrying the injected token for every position up to the last needed byte, and Ok == from_rng for positions after it. (3) seed_from_u64(x) for one edge/random x: xoshiro family == from_seed(first bytes of the repository's SplitMix64 stream started at x), XorShiftRng/Hc128Rng == from_seed(rand_core's PCG32 expansion written out in the harness), ISAAC state image == randinit(x in the first key word(s), zeros, ONE pass). evaluations counts every constructed case; distinct_nontrivial = distinct (type, route, fault kind, fault call index, torn length bucket) signatures. Every fourth infallible and every third fallible source is handed to the constructor as a zero-sized handle type whose state lives elsewhere (as OsRng-like sources are).".into()
     }
     fn assumptions(&self) -> Vec<String> {
         vec![
